@@ -499,15 +499,16 @@ class AbsoluteDuration(Duration):
         if not isinstance(years, int) or not isinstance(months, int):
             raise ValueError("Float year and months are not supported")
 
-        self = timedelta.__new__(
-            cls, days, seconds, microseconds, milliseconds, minutes, hours, weeks
-        )
-
         # We need to compute the total_seconds() value
         # on a native timedelta object
         delta = timedelta(
             days, seconds, microseconds, milliseconds, minutes, hours, weeks
         )
+
+        # The native value is the magnitude as well, so that comparisons
+        # and arithmetic agree with total_seconds()
+        native = abs(delta)
+        self = timedelta.__new__(cls, native.days, native.seconds, native.microseconds)
 
         # Intuitive normalization
         self._total = delta.total_seconds()
